@@ -110,6 +110,25 @@ Proof.
   intros s pk Hs Hpk. apply (prereq_orderedb_ok D HD). exact (Hb s pk Hs Hpk).
 Qed.
 
+(** from the tie back to the real automaton: when the recomputed scopes equal the recorded ones
+    as sets (case field [scopes ()]), the recorded scope of every state contains the arguments
+    of every constraint in its constraint order — the covering clause of the property for the
+    dumped automaton, obtained from the theorem about the algorithm instead of from wf_check *)
+Theorem c09_recorded_scopes_cover_the_constraints :
+  forall (K V M H P : Type) (D : DomOps K V M H P), DomEq D -> acyclic (req D) ->
+  forall (fuel : nat) (A : automaton K P) (order : list N) (sc : list (N * list K)),
+    (forall s pk, In s (au_states A) -> In pk (a_matches s) -> prereq_orderedb D [] (snd pk) = true) ->
+    NoDup (map (@a_id K P) (au_states A)) ->
+    populate_scopes D fuel A order = Ok sc ->
+    scope_mismatches D A sc = [] ->
+    forall s cts c t, In s (au_states A) -> cons_transitions s = Ok cts -> In (c, t) cts ->
+      incl (cargs c) (a_scope s).
+Proof.
+  intros K V M H P D HD Hac fuel A order sc Hb Hnd E Em.
+  apply (scopes_tie_covers D HD Hac fuel A order sc); auto.
+  intros s pk Hs Hpk. apply (prereq_orderedb_ok D HD). exact (Hb s pk Hs Hpk).
+Qed.
+
 (** on the example automaton the algorithm returns, and returns the recorded scopes *)
 Example c09_example_scopes :
   match populate_scopes string_dom 1000 ex_aut [0; 4; 6; 1; 2]%N with
@@ -129,3 +148,4 @@ Print Assumptions c09_populate_scopes_ordered_and_covering.
 Print Assumptions c09_pattern_keys_ordered_and_covering.
 Print Assumptions c09_scopes_after_add_pattern.
 Print Assumptions c09_recorded_keys_cover_the_pattern.
+Print Assumptions c09_recorded_scopes_cover_the_constraints.
